@@ -436,6 +436,54 @@ func c10(c *Ctx) {
 	if nw2 < 2 {
 		c.undecided(r, "floor", "history walkers not found")
 	}
+	// the revision reported for a version found in the history log counts the versions skipped across *all* records
+	// read so far: it is computed from the same per-version counter that bounds the walk, not from the position inside
+	// the current record
+	if f := c.fn("embedded/tbtree.(*leafValue).lastUpdateBetween"); f != nil {
+		var counter ssa.Value
+		for _, blk := range f.Blocks {
+			if len(blk.Instrs) == 0 {
+				continue
+			}
+			ifi, ok := blk.Instrs[len(blk.Instrs)-1].(*ssa.If)
+			if !ok {
+				continue
+			}
+			bo, ok := ifi.Cond.(*ssa.BinOp)
+			if !ok || bo.Op != token.LSS {
+				continue
+			}
+			if hasFieldSuffix(desc(bo.Y), "hCount") {
+				if _, isPhi := bo.X.(*ssa.Phi); isPhi {
+					counter = bo.X
+				}
+			}
+		}
+		if counter == nil {
+			c.undecided(r, fnName(f)+":revision", "the counter compared with hCount was not found")
+		} else {
+			nr := 0
+			allInstrs(f, false, func(in ssa.Instruction) {
+				rt, ok := in.(*ssa.Return)
+				if !ok || len(rt.Results) != 4 || retKind(rt) == "fail" {
+					return
+				}
+				hc := unspill(rt.Results[2], rt)
+				if !dependsOn(hc, func(v ssa.Value) bool { return hasFieldSuffix(desc(v), "hCount") }) || dependsOn(hc, func(v ssa.Value) bool {
+					cl, ok := v.(*ssa.Call)
+					return ok && strings.HasSuffix(calleeName(&cl.Call), "historyCount")
+				}) {
+					return // the in-memory versions: revision = historyCount() - i
+				}
+				nr++
+				c.check(dependsOn(hc, func(v ssa.Value) bool { return v == counter }), r, fmt.Sprintf("%s:revision-counts-all-skipped-versions#%d", fnName(f), nr), c.pos(rt.Pos()),
+					"revision = hCount - (versions skipped so far)", "the revision of a version found in the history log ("+desc(hc)+") does not depend on the number of versions skipped in earlier records: it is wrong for every key whose history spans more than one record")
+			})
+			if nr == 0 {
+				c.undecided(r, fnName(f)+":revision", "no successful return from the history walk found")
+			}
+		}
+	}
 
 	r = "C10.3/snapshots-pin-roots"
 	if f := c.mustFn(r, tbT+"SnapshotMustIncludeTsWithRenewalPeriod"); f != nil {
